@@ -170,3 +170,58 @@ SPECS["C03"] = (
   ("RFC 3711 B.2 AES-CM test vectors evaluated on the specification", "Spec/Rfc3711.v", "cm_b2"),
   ("RFC 3711 B.3 evaluated on the specification", "Spec/Rfc3711.v", "kdf_b3_cipher_key")],
  "")
+SPECS["C01"] = (
+ "   C01: SRTP round trip.  protect / unprotect are the monadic models of srtp_protect / srtp_unprotect (Rtp.v, tied to srtp.c by the\n"
+ "   correspondence check); rtp_wire (RtpSpec.v) is the byte-level description of the SRTP packet (header with RFC 6904 / cryptex\n"
+ "   transformations | payload xor keystream | MKI | tag over body||ROC) and protect_fun the pure function the monadic sender is\n"
+ "   proved to refine.  Scope of the END-TO-END theorems: explicit stream for the packet's SSRC (the wildcard clone path is covered\n"
+ "   by C13 / C14 / C17), internal crypto (AES-ICM, NULL cipher, HMAC-SHA1, NULL auth), any CSRC count / extension shape / payload\n"
+ "   length / MKI setting / alias mode on either side, streams WITHOUT cryptex and WITHOUT a header-extension cipher (plain_stream).\n"
+ "   For the RFC 6904 and cryptex classes the theorems below give the algebraic cores (the element walk is an involution for both\n"
+ "   forms and on a whole block; the cryptex CSRC shuffle is undone by its inverse) and evaluated examples through the full model;\n"
+ "   their end-to-end statement is the part still named PARTIAL.  The round trip premises are those a peer session with the same\n"
+ "   policy in the same index state satisfies: same keys / services / MKI configuration, same index estimate, packet not yet seen.",
+ "From Srtp Require Import Util Constants KeyLimit Rdb Rdbx Icm World Stream Rtp Session WfProofs RtcpSpec RtpSpec XtnProofs CryptexProofs RtpSpecProofs RtpXtnApply RtpRoundTrip RtpExamples.",
+ [("the stream cipher is an involution: applying it again at the same state gives the input back", "RtcpSpec.v", "cipher_encrypt_involutive"),
+  ("what a successful srtp_protect emits, byte for byte: rtp_wire for the selected key and the estimated index", "RtpSpecProofs.v", "protect_emits_rtp_wire"),
+  ("the receiver selects the sender's key: first key without MKI, the named key under distinct MKI values", "RtpRoundTrip.v", "key_selected_nodup"),
+  ("round trip of the monadic receiver on a wire packet: status ok, length, bytes, no out-of-bounds access, input untouched (any alias mode, any destination prefill)", "RtpRoundTrip.v", "srtp_round_trip"),
+  ("end to end: whatever srtp_protect produced is accepted by the peer and decodes to the byte-identical packet", "RtpRoundTrip.v", "srtp_protect_unprotect"),
+  ("RFC 6904 element walk, one-byte form: running it again with the same keystream gives the elements back", "XtnProofs.v", "xtn_one_involutive"),
+  ("... two-byte form", "XtnProofs.v", "xtn_two_involutive"),
+  ("... on a whole packet block: only the extension elements change, and the transformation is an involution", "RtpXtnApply.v", "xtn_apply_outside"),
+  ("", "RtpXtnApply.v", "xtn_apply_involutive"),
+  ("cryptex: the in-place CSRC / extension-header shuffle of srtp_cryptex_adjust_buffer is undone by srtp_cryptex_restore_buffer", "CryptexProofs.v", "cryptex_adjust_restore_id"),
+  ("non-vacuity and class coverage by evaluation (vm_compute through session_create, protect, unprotect; in place, out of place with two prefills): plain with MKI", "RtpExamples.v", "RtpEx.plain_mki_key0"),
+  ("", "RtpExamples.v", "RtpEx.plain_mki_key1"),
+  ("empty payload", "RtpExamples.v", "RtpEx.plain_empty_payload"),
+  ("RFC 6904, one-byte and two-byte forms, with MKI", "RtpExamples.v", "RtpEx.xtn6904_one_byte"),
+  ("", "RtpExamples.v", "RtpEx.xtn6904_two_byte"),
+  ("", "RtpExamples.v", "RtpEx.xtn6904_with_mki"),
+  ("cryptex with CSRCs, both forms, with MKI", "RtpExamples.v", "RtpEx.cryptex_csrc_one_byte"),
+  ("", "RtpExamples.v", "RtpEx.cryptex_two_byte"),
+  ("", "RtpExamples.v", "RtpEx.cryptex_with_mki"),
+  ("", "RtpExamples.v", "RtpEx.cryptex_wire_shape")],
+ "")
+SPECS["C12"] = (
+ "   C12: in-place and out-of-place processing give identical results.  The monadic models run over explicit source / destination\n"
+ "   blocks with an alias flag (World.v); each theorem says the model REFINES a pure function of (session, packet bytes, capacity),\n"
+ "   so status, length, output octets and final session cannot depend on the alias mode or on what the destination held, and the\n"
+ "   out-of-place call leaves its input alone.  SRTCP: both functions, every input (valid, replayed, tampered, malformed).\n"
+ "   SRTP: srtp_protect for streams without cryptex / header-extension cipher (every input), srtp_unprotect on every wire packet\n"
+ "   of such a stream (C01_srtp_round_trip: the result is the packet in every mode); the remaining SRTP classes are covered by the\n"
+ "   evaluated examples and the four-modes correspondence family (PARTIAL).  Known finding F16: cryptex TOGETHER WITH RFC 6904\n"
+ "   (outside C01's domain) is alias dependent; the refutation below is evaluated on the model and replayed on the library.",
+ "From Srtp Require Import Util Constants KeyLimit Rdb Rdbx Icm World Stream Rtp Rtcp Session WfProofs RtcpSpec RtcpSpecProofs RtpSpec RtpSpecProofs RtpRoundTrip RtpExamples.",
+ [("srtp_protect computes protect_fun of (session, MKI index, capacity, packet): whatever the alias mode and the prefill", "RtpSpecProofs.v", "protect_refines"),
+  ("... hence in place vs out of place: same status, length, output octets, final session; source untouched", "RtpSpecProofs.v", "protect_alias_independent"),
+  ("srtp_unprotect on a wire packet: the packet comes back in every mode (w is any world whose input block holds the wire image)", "RtpRoundTrip.v", "srtp_round_trip"),
+  ("srtp_protect_rtcp refines a pure function", "RtcpSpecProofs.v", "protect_rtcp_refines"),
+  ("srtp_unprotect_rtcp refines a pure function (all inputs: the function also computes the error statuses)", "RtcpSpecProofs.v", "unprotect_rtcp_refines"),
+  ("srtp_protect_rtcp: alias independence", "RtcpSpecProofs.v", "protect_rtcp_alias_independent"),
+  ("", "RtcpSpecProofs.v", "protect_rtcp_inplace_vs_outofplace"),
+  ("srtp_unprotect_rtcp: alias independence", "RtcpSpecProofs.v", "unprotect_rtcp_alias_independent"),
+  ("evaluated: cryptex and RFC 6904 classes, protect and unprotect, in place = out of place for two prefills", "RtpExamples.v", "RtpEx.cryptex_csrc_one_byte"),
+  ("", "RtpExamples.v", "RtpEx.xtn6904_one_byte"),
+  ("REFUTED for cryptex together with RFC 6904 (known finding cryptex-with-6904:protect)", "RtpSpecProofs.v", "protect_alias_cryptex_xtn_refuted")],
+ "")
